@@ -1,3 +1,299 @@
-//! C10 — not built yet.
-use crate::run::Run;
-pub fn run(_run: &Run) { eprintln!("C10: check not built yet"); std::process::exit(2); }
+//! C10 — documents built from scratch reload with the same pages and are valid PDF.
+//!
+//! Workload: tape-generated documents (`c10_gen`): 0–6 pages with operations from C08's domain, boxes, rotation,
+//! extra entries, /Metadata /LGIDict /VP, resources (fonts, ExtGState, colour spaces, XObjects, patterns, property
+//! lists; auxiliary objects are created in the builder's own storage first), optional information dictionary,
+//! builder from `FileOptions::cached()` or `uncached()`.
+//! Oracles on the bytes `PdfBuilder::build` returns:
+//!   build     build / create return Ok and do not panic;
+//!   reload    strict `FileOptions::{uncached,cached}().load(bytes)` succeeds and shows what was given (`c10_build::compare`);
+//!   validate  `refimpl::c10_validate` (own reader, no library code) accepts the file structure, and its own reading of
+//!             page tree, /Rotate, /MediaBox, marker entries and /Info agrees with what was given.
+//! Every distinct (oracle, outcome class) of a failing case is shrunk on the tape with the real code in the loop; the
+//! signature is `C10|<oracle>|<labels of the shrunk case>|<outcome class>`.
+use super::c10_build::{build_doc, compare, Fail, Made};
+use super::c10_gen::*;
+use crate::mkpdf::Obj;
+use crate::panicmon::guard;
+use crate::par::par_chunks;
+use crate::refimpl::{c10_validate, c15_date};
+use crate::rng::{fnv, Rng};
+use crate::run::{show, Run};
+use crate::tape::{shrink, Src};
+use pdf::file::FileOptions;
+use serde_json::{json, Value};
+use std::collections::{BTreeMap, BTreeSet};
+use std::sync::Mutex;
+
+#[derive(Clone, Debug)]
+pub struct Failure { pub oracle: &'static str, pub class: String, pub detail: String }
+
+#[derive(Default)]
+pub struct Outcome {
+    pub fails: Vec<Failure>,
+    pub inconclusive: Option<String>,
+    pub bytes: Vec<u8>,
+    pub notes: BTreeSet<String>,
+    pub n_objects: usize,
+    pub n_streams: usize,
+    pub n_refs: usize,
+}
+
+fn build(spec: &DocSpec) -> Result<Result<(Vec<u8>, Made), Fail>, crate::panicmon::PanicRec> {
+    guard(|| if spec.cached_builder { build_doc(FileOptions::cached(), spec) } else { build_doc(FileOptions::uncached(), spec) })
+}
+
+fn num_of(o: Option<&Obj>) -> Option<f64> { match o { Some(Obj::Int(i)) => Some(*i as f64), Some(Obj::Real(x)) => Some(*x), _ => None } }
+
+/// value-level agreement of the independent reading with what was given
+fn cross_check(rep: &c10_validate::Report, spec: &DocSpec, out: &mut Vec<Failure>) {
+    let mut bad = |class: &str, detail: String| out.push(Failure { oracle: "validate", class: class.into(), detail });
+    match rep.pages() {
+        Err(e) => bad("page-tree-unwalkable", e),
+        Ok(pages) => {
+            if pages.len() != spec.pages.len() { bad("wrong-page-count", format!("own reader finds {} page objects, {} pages were given", pages.len(), spec.pages.len())); }
+            for (i, (nr, p)) in pages.iter().zip(&spec.pages).enumerate() {
+                let Some(obj) = rep.object(*nr) else { continue };
+                match obj.get(MARKER) {
+                    Some(Obj::Int(k)) if *k as usize == i => {}
+                    Some(Obj::Int(k)) => { bad("wrong-page-order", format!("own reader: /Kids position {} holds the page given at position {}", i, k)); continue; }
+                    other => bad("other-entry-lost", format!("own reader: page {} marker is {:?}", i, other)),
+                }
+                let rot = rep.dict_get(obj, "Rotate");
+                match rot { Some(Obj::Int(r)) if *r == p.rotate as i64 => {}, None if p.rotate == 0 => {}, other => bad("wrong-rotate", format!("own reader: page {} /Rotate {:?}, expected {}", i, other, p.rotate)) }
+                match (rep.dict_get(obj, "MediaBox"), &p.media) {
+                    (None, None) => {}
+                    (Some(Obj::Arr(a)), Some(m)) if a.len() == 4 && a.iter().zip(m.iter()).all(|(x, y)| num_of(Some(x)).map(|v| v as f32) == Some(*y)) => {}
+                    (g, w) => bad("wrong-box", format!("own reader: page {} /MediaBox {:?}, expected {:?}", i, g, w)),
+                }
+                if !matches!(obj.get("Contents"), Some(Obj::Ref(..))) { bad("wrong-ops", format!("own reader: page {} /Contents is {:?}", i, obj.get("Contents"))); }
+                if !matches!(obj.get("Resources"), Some(Obj::Ref(..)) | Some(Obj::Dict(_))) { bad("wrong-resources", format!("own reader: page {} /Resources is {:?}", i, obj.get("Resources"))); }
+            }
+        }
+    }
+    let tr = rep.trailer.as_ref();
+    let info = tr.and_then(|t| t.get("Info")).and_then(|i| rep.deref(i));
+    match (&spec.info, info) {
+        (None, None) => {}
+        (Some(want), Some(got @ Obj::Dict(_))) => {
+            for k in 0..6 {
+                let g = match got.get(INFO_KEYS[k]) { Some(Obj::Str(s)) => Some(s.clone()), None => None, Some(_) => Some(b"<not a string>".to_vec()) };
+                if g != want.strings[k] { bad("info-differs", format!("own reader: /{} is {:?}, expected {:?}", INFO_KEYS[k], g.as_ref().map(|s| show(s)), want.strings[k].as_ref().map(|s| show(s)))); }
+            }
+            for (key, w) in [("CreationDate", &want.creation), ("ModDate", &want.modified)] {
+                let g = match got.get(key) { Some(Obj::Str(s)) => Some(c15_date::parse(s)), None => None, Some(_) => Some(Err("not a string".into())) };
+                let ok = match (w, &g) {
+                    (None, None) => true,
+                    (Some(d), Some(Ok(r))) => r.year == d.year as u32 && r.month == d.month as u32 && r.day == d.day as u32 && r.hour == d.hour as u32 && r.minute == d.minute as u32
+                        && r.second == d.second as u32 && r.rel == d.rel && r.tz_hour == d.tz_hour as u32 && r.tz_minute == d.tz_minute as u32,
+                    _ => false,
+                };
+                if !ok { bad("info-differs", format!("own reader: /{} is {:?} ({:?}), expected {:?}", key, got.get(key), g, w)); }
+            }
+            let t = match got.get("Trapped") { Some(Obj::Name(n)) => match &n[..] { b"True" => Some(0u8), b"False" => Some(1), b"Unknown" => Some(2), _ => Some(9) }, None => None, _ => Some(9) };
+            if t != want.trapped { bad("info-differs", format!("own reader: /Trapped {:?}, expected {:?}", got.get("Trapped"), want.trapped)); }
+        }
+        (w, g) => bad("info-differs", format!("own reader: /Info {:?}, information given: {}", g.map(|_| "present"), w.is_some())),
+    }
+}
+
+/// one document through all oracles
+pub fn evaluate(spec: &DocSpec) -> Outcome {
+    let mut o = Outcome::default();
+    let (bytes, made) = match build(spec) {
+        Err(p) => { o.fails.push(Failure { oracle: "build", class: p.signature(), detail: format!("building panicked: {}", p.describe()) }); return o; }
+        Ok(Err(Fail::Prepare(why))) => { o.inconclusive = Some(format!("input preparation failed: {}", why)); return o; }
+        Ok(Err(Fail::Lib(class, e))) => { o.fails.push(Failure { oracle: "build", class: class.into(), detail: format!("{}: {}", class, e) }); return o; }
+        Ok(Ok(t)) => t,
+    };
+    // oracle 2: own reader
+    match guard(|| c10_validate::validate(&bytes)) {
+        Err(p) => o.inconclusive = Some(format!("validator panicked: {}", p.describe())),
+        Ok(rep) => {
+            if let Some(u) = &rep.unsupported { o.inconclusive = Some(format!("validator: unsupported: {}", u)); }
+            let mut seen = BTreeSet::new();
+            for p in &rep.problems { if seen.insert(p.class) { o.fails.push(Failure { oracle: "validate", class: p.class.into(), detail: p.detail.clone() }); } }
+            o.notes = rep.notes.clone();
+            o.n_objects = rep.objects.len(); o.n_streams = rep.n_streams; o.n_refs = rep.n_refs;
+            let cl = rep.classes();
+            // the value-level comparison needs the objects: skip it when the structure itself is already reported broken
+            if rep.unsupported.is_none() && rep.trailer.is_some() && !cl.contains("object-syntax") && !cl.contains("xref-offset-mismatch") { cross_check(&rep, spec, &mut o.fails); }
+        }
+    }
+    // oracle 1: reload with the library, both cache flavours, strict options (the default of FileOptions)
+    for cached in [false, true] {
+        let r = guard(|| -> Result<Vec<(&'static str, String)>, String> {
+            if cached { FileOptions::cached().load(bytes.clone()).map(|f| compare(&f, spec, &made)).map_err(|e| format!("{}", e)) }
+            else { FileOptions::uncached().load(bytes.clone()).map(|f| compare(&f, spec, &made)).map_err(|e| format!("{}", e)) }
+        });
+        let how = if cached { "cached" } else { "uncached" };
+        match r {
+            Err(p) => o.fails.push(Failure { oracle: "reload", class: p.signature(), detail: format!("{} reload panicked: {}", how, p.describe()) }),
+            Ok(Err(e)) => o.fails.push(Failure { oracle: "reload", class: "load-error".into(), detail: format!("{} load: {}", how, e) }),
+            Ok(Ok(diffs)) => for (c, d) in diffs { o.fails.push(Failure { oracle: "reload", class: c.into(), detail: format!("{} reload: {}", how, d) }); },
+        }
+    }
+    // one entry per (oracle, class)
+    let mut seen = BTreeSet::new();
+    o.fails.retain(|f| seen.insert((f.oracle, f.class.clone())));
+    o.bytes = bytes;
+    o
+}
+
+fn describe(spec: &DocSpec) -> Value {
+    json!({
+        "builder": if spec.cached_builder { "FileOptions::cached()" } else { "FileOptions::uncached()" },
+        "info": spec.info.as_ref().map(|i| json!({
+            "strings": INFO_KEYS.iter().zip(&i.strings).filter_map(|(k, v)| v.as_ref().map(|v| (k.to_string(), Value::String(show(v))))).collect::<serde_json::Map<String, Value>>(),
+            "creation": format!("{:?}", i.creation), "modified": format!("{:?}", i.modified), "trapped": i.trapped })),
+        "pages": spec.pages.iter().map(|p| json!({
+            "ops": crate::opsgen::show_ops(&p.ops), "media": format!("{:?}", p.media), "crop": format!("{:?}", p.crop), "trim": format!("{:?}", p.trim), "rotate": p.rotate,
+            "other": p.other.iter().map(|(k, v)| format!("/{} {:?}", k, v)).collect::<Vec<_>>(),
+            "metadata": p.metadata.as_ref().map(|m| show(m)), "lgi": p.lgi.as_ref().map(|v| format!("{:?}", v)), "vp": p.vp.as_ref().map(|v| format!("{:?}", v)),
+            "resources": {
+                "fonts": p.res.fonts.iter().map(|(n, f)| format!("/{} {:?}", n, f)).collect::<Vec<_>>(),
+                "extgstate": p.res.gs.iter().map(|(n, d, f)| format!("/{} {:?} font-size {:?}", n, d, f)).collect::<Vec<_>>(),
+                "colorspaces": p.res.cs.iter().map(|(n, c)| match c { CsSpec::Indexed { cmyk_base, hival, lookup } => format!("/{} Indexed(cmyk={}, hival={}, {} lookup bytes)", n, cmyk_base, hival, lookup.len()), o => format!("/{} {:?}", n, o) }).collect::<Vec<_>>(),
+                "xobjects": p.res.xobjects.iter().map(|(n, x)| match x { XoSpec::Image { w, h, mask, cmyk, data, .. } => format!("/{} Image {}x{} mask={} cmyk={} data={}", n, w, h, mask, cmyk, show(&data[..data.len().min(64)])), XoSpec::Form { ops, .. } => format!("/{} Form {:?}", n, crate::opsgen::show_ops(ops)) }).collect::<Vec<_>>(),
+                "patterns": p.res.patterns.iter().map(|(n, x)| format!("/{} stream={} ops={:?}", n, x.stream, crate::opsgen::show_ops(&x.ops))).collect::<Vec<_>>(),
+                "properties": p.res.props.iter().map(|(n, d, i)| format!("/{} {:?} indirect={}", n, d, i)).collect::<Vec<_>>(),
+            }})).collect::<Vec<_>>(),
+    })
+}
+
+fn spec_hash(spec: &DocSpec) -> u64 { fnv(format!("{:?}", spec).as_bytes()) }
+
+struct Found { index: u64, tape: Vec<u32>, features: BTreeSet<String>, fails: Vec<Failure> }
+
+const OUT_OF_DOMAIN_COLOUR_SPACES: &str = "ColorSpace::to_primitive writes DeviceRGB, DeviceCMYK and Indexed only; DeviceGray, DeviceN, CalGray, CalRGB, CalCMYK, Separation, Icc, Pattern, Named and Other end in the catch-all arm and return Err(Unimplemented) (pdf/src/object/color.rs; probed each run, see colour_space_writer_probe), so they are kept out of the generated resources and image dictionaries";
+
+pub fn run(run: &Run) {
+    run.rule("tape-generated documents: 0..6 pages (1 most often) x {operations from C08's domain without non-standard operands, <= 14 per page; MediaBox letter/A4/random/boundary-valued or absent; CropBox/TrimBox; Rotate 0, multiples of 90 (also negative and > 360), other values; 0..3 extra page entries (unmodelled spec keys and private keys with names, numbers, strings, arrays, dictionaries) plus a marker entry /C10Idx; /Metadata stream, /LGIDict, /VP; resources with Type1/TrueType fonts (widths, descriptor, encoding with differences, ToUnicode; direct or indirect), Type0 fonts with a CIDFontType0/2 descendant, ExtGState dictionaries, DeviceRGB/DeviceCMYK/Indexed colour spaces (lookup below and above the writer's 100-byte switch), image and form XObjects, tiling patterns, property lists} x {no info, info with any subset of the six text strings (ASCII, UTF-16BE, parentheses, EOLs, random bytes), dates, Trapped} x {cached, uncached builder}. Oracles: build succeeds; strict reload (cached and uncached) shows the same page count, order, boxes, rotation, extra entries, operations (C08 comparator), resources and info; independent validator (refimpl/c10_validate.rs) accepts header, startxref, xref stream (/W /Index /Size decoded by hand), entry offsets, /Size, stream /Length, references, duplicates, %%EOF and reads the same pages/rotation/MediaBox/info. distinct_nontrivial = distinct documents that were built and passed through both oracles.");
+    run.assume("the validator refimpl/c10_validate.rs implements ISO 32000-1 7.5 (self-tested each run on files of the independent writer mkpdf with and without hand-made defects)");
+    run.assume("a stream's /Length is right when it equals the number of bytes between the EOL after `stream` and the EOL marker before `endstream` (7.3.8.1); when the region ends in CR LF both readings of the marker are accepted");
+    run.assume("/Size larger than highest object number + 1 is recorded as an observation (counter note:size-exceeds-highest+1), not as a violation: the property demands /Size above every object number");
+    run.assume("the reader keeps /Type in Page::other; that key is ignored when extra entries are compared");
+    run.assume(OUT_OF_DOMAIN_COLOUR_SPACES);
+    run.extra("out_of_domain", json!([OUT_OF_DOMAIN_COLOUR_SPACES, "Op::InlineImage (serialize_ops has no code for it, as in C08)", "non-finite box coordinates and operands", "null as a dictionary entry value (means: no entry)", "InfoDict / Page::other keys that collide with modelled keys"]));
+
+    // which colour spaces can the writer write at all? (probed on the real code; the unwritable ones stay out of the domain)
+    {
+        use pdf::object::{ColorSpace, ObjectWrite};
+        use pdf::primitive::{Dictionary, Primitive};
+        let probes: Vec<(&str, ColorSpace)> = vec![
+            ("DeviceRGB", ColorSpace::DeviceRGB), ("DeviceCMYK", ColorSpace::DeviceCMYK),
+            ("Indexed", ColorSpace::Indexed(Box::new(ColorSpace::DeviceRGB), 0, std::sync::Arc::from(vec![0u8; 3]))),
+            ("DeviceGray", ColorSpace::DeviceGray), ("Pattern", ColorSpace::Pattern), ("Named", ColorSpace::Named("Cs0".into())),
+            ("CalGray", ColorSpace::CalGray(Dictionary::new())), ("CalRGB", ColorSpace::CalRGB(Dictionary::new())), ("CalCMYK", ColorSpace::CalCMYK(Dictionary::new())),
+            ("Other", ColorSpace::Other(vec![Primitive::name("Lab"), Primitive::Dictionary(Dictionary::new())])),
+        ];
+        let mut res = serde_json::Map::new();
+        for (name, cs) in probes {
+            let mut st = super::c15_gen::new_store();
+            let r = match guard(|| cs.to_primitive(&mut st)) { Ok(Ok(_)) => "written".to_string(), Ok(Err(e)) => format!("error: {}", e), Err(p) => format!("panic: {}", p.signature()) };
+            if (r == "written") != ["DeviceRGB", "DeviceCMYK", "Indexed"].contains(&name) { run.inconclusive(format!("colour space probe: {} is now {}: the generator's domain needs revisiting", name, r)); }
+            res.insert(name.to_string(), Value::String(r));
+        }
+        res.insert("DeviceN / Separation / Icc".into(), Value::String("not probed (need a Function / an ICC stream); same catch-all arm in the source".into()));
+        run.extra("colour_space_writer_probe", Value::Object(res));
+    }
+    let st = c10_validate::self_test();
+    if !st.is_empty() { for f in st.iter().take(5) { run.inconclusive(format!("validator self-test: {}", f)); } return; }
+    run.count("validator_self_test_passed");
+
+    let n = run.n(4_000, 200_000);
+    let found: Mutex<Vec<Found>> = Mutex::new(Vec::new());
+    par_chunks(n, 50, |lo, hi| {
+        let mut local: BTreeMap<String, u64> = BTreeMap::new();
+        let mut bump = |k: String, v: u64| *local.entry(k).or_insert(0) += v;
+        for i in lo..hi {
+            let mut src = Src::fresh(Rng::derive(run.seed, 10, i));
+            let spec = gen_doc(&mut src);
+            run.eval();
+            let o = evaluate(&spec);
+            if let Some(why) = &o.inconclusive { run.inconclusive(format!("case {}: {}", i, why)); }
+            if !o.bytes.is_empty() {
+                run.nontrivial(spec_hash(&spec));
+                bump("documents_built".into(), 1);
+                bump(format!("builder:{}", if spec.cached_builder { "cached" } else { "uncached" }), 1);
+                bump(format!("pages={}", spec.pages.len()), 1);
+                bump(format!("info:{}", if spec.info.is_some() { "given" } else { "none" }), 1);
+                bump("pages_total".into(), spec.pages.len() as u64);
+                bump("ops_total".into(), spec.pages.iter().map(|p| p.ops.len() as u64).sum());
+                bump("validated:objects".into(), o.n_objects as u64);
+                bump("validated:streams".into(), o.n_streams as u64);
+                bump("validated:references".into(), o.n_refs as u64);
+                bump("bytes_total".into(), o.bytes.len() as u64);
+                if o.bytes.len() > 65536 { bump("documents_with_offsets_above_64KiB".into(), 1); }
+                for nte in &o.notes { let k = nte.split(" (").next().unwrap_or(nte); bump(format!("note:{}:{}", k, if spec.info.is_some() { "with-info" } else { "without-info" }), 1); }
+                if o.fails.is_empty() { bump("documents_pass".into(), 1); }
+            }
+            let l: BTreeSet<&'static str> = src.labels.iter().cloned().collect();
+            for lab in l.iter() { if !lab.starts_with("pat:") && !lab.starts_with("c1=") && !lab.starts_with("c2=") { bump(format!("feature:{}", lab), 1); } }
+            if i < 4 { run.sample(json!({"case": i, "labels": src.label_set(), "document": describe(&spec), "bytes": show(&o.bytes[..o.bytes.len().min(700)]), "n_bytes": o.bytes.len()})); }
+            if !o.fails.is_empty() {
+                for f in &o.fails { bump(format!("failing:{}|{}", f.oracle, f.class), 1); }
+                found.lock().unwrap().push(Found { index: i, tape: src.tape.clone(), features: super::c10_min::features(&spec), fails: o.fails });
+            }
+        }
+        for (k, v) in local { run.add(&k, v); }
+    });
+
+    // Minimise in rounds, in case order (deterministic whatever the thread schedule was). A failing case whose features
+    // include the label set of an already minimised case of the same (oracle, class) counts as explained by it; the
+    // others are minimised too, so that a frequent cause cannot hide a rare one of the same class.
+    let mut found = found.into_inner().unwrap();
+    found.sort_by_key(|f| f.index);
+    type Key = (String, String);
+    let mut pending: Vec<(u64, Vec<u32>, BTreeSet<String>, Failure)> = Vec::new();
+    for f in found { for fail in &f.fails { pending.push((f.index, f.tape.clone(), f.features.clone(), fail.clone())); } }
+    let mut explained: BTreeMap<Key, Vec<BTreeSet<String>>> = BTreeMap::new();
+    let mut spent: BTreeMap<Key, usize> = BTreeMap::new();
+    loop {
+        let mut batch: Vec<(u64, Vec<u32>, Failure)> = Vec::new();
+        let mut in_batch: BTreeMap<Key, usize> = BTreeMap::new();
+        let mut rest = Vec::new();
+        for (index, tape, feats, fail) in pending.into_iter() {
+            let key: Key = (fail.oracle.to_string(), fail.class.clone());
+            if explained.get(&key).map_or(false, |sets| sets.iter().any(|m| m.is_subset(&feats))) { run.count(&format!("explained-by-minimised-case:{}|{}", key.0, key.1)); continue; }
+            let (b, sp) = (in_batch.entry(key.clone()).or_insert(0), spent.entry(key.clone()).or_insert(0));
+            if *b < 8 && *sp < 64 { *b += 1; *sp += 1; batch.push((index, tape, fail)); } else { rest.push((index, tape, feats, fail)); }
+        }
+        pending = rest;
+        if batch.is_empty() { break; }
+        let results: Mutex<Vec<(u64, String, String, Value, Key, BTreeSet<String>)>> = Mutex::new(Vec::new());
+        crate::par::par_for(batch.len() as u64, |w| {
+            let (index, tape, fail) = &batch[w as usize];
+            if let Some((sig, detail, witness, labels)) = minimise_one(run, *index, tape, fail) {
+                results.lock().unwrap().push((*index, sig, detail, witness, (fail.oracle.to_string(), fail.class.clone()), labels));
+            }
+        });
+        let mut results = results.into_inner().unwrap();
+        results.sort_by(|a, b| (a.0, &a.1).cmp(&(b.0, &b.1)));
+        for (_, sig, detail, witness, key, labels) in results {
+            run.violation(&sig, &detail, witness);
+            let e = explained.entry(key).or_default();
+            if !e.contains(&labels) { e.push(labels); }
+        }
+    }
+    for (_, _, _, fail) in &pending { run.count(&format!("not-minimised(budget):{}|{}", fail.oracle, fail.class)); }
+}
+
+/// tape-level shrinking (cheap, removes most of the document), then structure-level minimisation; the signature is built
+/// from the features of what is left
+fn minimise_one(run: &Run, index: u64, tape: &[u32], fail: &Failure) -> Option<(String, String, Value, BTreeSet<String>)> {
+    let fails_same = |spec: &DocSpec| evaluate(spec).fails.iter().any(|f| f.oracle == fail.oracle && f.class == fail.class);
+    let small = shrink(tape, |t| { let mut s = Src::replay(t); fails_same(&gen_doc(&mut s)) }, 150);
+    let mut s = Src::replay(&small);
+    let spec = super::c10_min::minimise(&gen_doc(&mut s), &fails_same, 1500);
+    let o = evaluate(&spec);
+    let Some(hit) = o.fails.iter().find(|f| f.oracle == fail.oracle && f.class == fail.class).cloned() else {
+        run.inconclusive(format!("case {}: {}|{} does not reproduce on the minimised document", index, fail.oracle, fail.class)); return None;
+    };
+    let feats = super::c10_min::features(&spec);
+    let labels = super::c10_min::label_set(&spec);
+    let sig = format!("C10|{}|{}|{}", hit.oracle, labels, hit.class);
+    let witness = json!({"case": index, "tape_after_tape_shrinking": small, "labels": labels, "minimal_document": describe(&spec), "bytes": show(&o.bytes[..o.bytes.len().min(3000)]), "n_bytes": o.bytes.len(),
+        "all_failures_of_minimal_document": o.fails.iter().map(|f| format!("{}|{}: {}", f.oracle, f.class, f.detail)).collect::<Vec<_>>()});
+    Some((sig, hit.detail, witness, feats))
+}
